@@ -30,14 +30,14 @@ KEY4 = ['a', 'b', 'c', 'd']
 
 _TASKS = []
 _ROOT = [None]
+_POOL = [None]
 
 
 def _pmap(f, items):
-    n = int(os.environ.get('VERIF_PY_WORKERS', min(12, os.cpu_count() or 1)))
-    if n <= 1 or len(items) <= 1:
+    """map over the worker processes (forked once, at the start of run(), before any thread exists)"""
+    if _POOL[0] is None or len(items) <= 1:
         return [f(i) for i in items]
-    with multiprocessing.get_context('fork').Pool(n) as pool:
-        return pool.map(f, items, chunksize=4)
+    return _POOL[0].map(f, items, chunksize=4)
 
 
 def _leaves(emitted, key=lambda e: e['hist'], ctxkey=lambda e: ''):
@@ -59,16 +59,20 @@ def _slim(hist):
     return [{k: v for k, v in e.items() if k not in ('adm', 'mech')} for e in hist]
 
 
-def _replay_store(ix):
+def _replay_store(arg):
     """one TLC history against real processes and real files"""
-    t = _TASKS[ix]
+    ix, t = arg
     pal = Palette()
     root = os.path.join(_ROOT[0], 's%d' % ix)
     world = World(root, t['npaths'], t['blocked'])
     for i, units in enumerate(t['init'], 1):
         world.put(i, pal.text(units))
     procs, state = {}, {}
-    out = {'reads': 0, 'viol': [], 'desync': 0, 'mech_reads': 0, 'mech_reads_agree': 0, 'disk_agree': 0, 'faults': {}, 'sample': None}
+    out = {'reads': 0, 'viol': [], 'desync': 0, 'mech_reads': 0, 'mech_reads_agree': 0, 'disk_agree': 0, 'faults': {}, 'sample': None,
+           'left_to_trace': 0}
+    rec = []                     # what really happened, in the format of Trace_CfgStore (judged there as a whole)
+    writing = {}                 # process -> the configuration it is writing
+    on_model = [True]            # the real reads so far are the ones the mechanism model predicted
     hist = t['hist']
     written = [[u for u in units if u[0] not in ('{', '}', '!')] for units in t['init']]
 
@@ -100,8 +104,9 @@ def _replay_store(ix):
             n += 1
             if 'done' in msg:
                 state[p] = 'idle'
+                rec.append({'op': 'end', 'p': p, 'cfg': writing.pop(p), 'done': msg['done']})
                 if msg.get('arg_after') != msg.get('arg_before'):
-                    out['viol'].append(('write_argument_changed', {'op': 'write', 'fault': 'none'}, msg))
+                    out['viol'].append(('write_argument_changed', {'engine': 's2c', 'op': 'write', 'area': 'store', 'fault': 'none'}, msg))
                 if want != 'done':
                     out['desync'] += 1
                 return
@@ -116,6 +121,7 @@ def _replay_store(ix):
                 if p in procs:
                     procs[p].kill()
                 procs[p] = Proc(world.env, pal, KEY2); state[p] = 'idle'
+                rec.append({'op': 'spawn', 'p': p})
             elif op == 'begin':
                 cum = list(itertools.accumulate(len(x) for x in pal.unit_texts(e['cfg'])))
                 cuts = []                                    # one list of cuts per file the model opens
@@ -131,12 +137,16 @@ def _replay_store(ix):
                 written.append(e['cfg'])
                 procs[p].send({'op': 'write', 'cfg': e['cfg'], 'stepwise': 1, 'cuts': cuts})
                 state[p] = 'stopped'
+                writing[p] = e['cfg']
+                rec.append({'op': 'begin', 'p': p, 'cfg': e['cfg']})
                 advance(p, k, first=True)
             elif op in ('open', 'flush', 'fail', 'close'):
                 if state[p] == 'stopped':
                     advance(p, k)
             elif op == 'crash':
                 procs[p].kill(); state[p] = 'dead'
+                if p in writing:
+                    rec.append({'op': 'end', 'p': p, 'cfg': writing.pop(p), 'done': 0})
             elif op == 'read':
                 if state.get(p) != 'idle':
                     raise Machinery('history asks process %s to read while it is %s: %s' % (p, state.get(p), json.dumps(_slim(hist))))
@@ -144,12 +154,23 @@ def _replay_store(ix):
                 out['reads'] += 1
                 fault = e['fault']
                 out['faults'][fault] = out['faults'].get(fault, 0) + 1
+                rec.append({'op': 'read', 'p': p, 'ok': r['ok'], 'cfg': r['cfg'] if r['ok'] else [], 'cls': r.get('cls', ''), 'fault': fault,
+                            'reader': e['reader'], 'files': [pal.enc_file(world.get(i), KEY2, written) for i in range(1, t['npaths'] + 1)]})
+                rec[-1]['s2c_verdict'] = 'left'
+                if not on_model[0]:
+                    # an earlier read came back with another admitted outcome than the mechanism model's: the sets TLC printed
+                    # for the rest of this history presuppose the model's outcome; the trace specification judges the rest
+                    out['left_to_trace'] += 1
+                    continue
                 admitted = r['ok'] == 1 and r['cfg'] in e['adm']
+                rec[-1]['s2c_verdict'] = 'ok' if admitted else 'bad'
                 out['mech_reads'] += 1
                 if (r['ok'], r['cfg'] if r['ok'] else []) == (e['mech']['ok'], e['mech']['cfg'] if e['mech']['ok'] else []):
                     out['mech_reads_agree'] += 1
+                else:
+                    on_model[0] = False
                 if not admitted:
-                    case = {'engine': 's2c', 'op': 'read', 'fault': fault, 'reader': e['reader'], 'npaths': t['npaths'],
+                    case = {'engine': 's2c', 'op': 'read', 'area': 'store', 'fault': fault, 'reader': e['reader'], 'npaths': t['npaths'],
                             'blocked': t['blocked'], 'init': t['init'], 'hist': _slim(hist[:k + 1])}
                     files = [pal.enc_file(world.get(i), KEY2, written) for i in range(1, t['npaths'] + 1)]
                     out['viol'].append(('read_raised' if r['ok'] != 1 else 'read_not_old_or_new', case,
@@ -158,6 +179,8 @@ def _replay_store(ix):
                     out['sample'] = {'s2c_store_history': _slim(hist[:k + 1]), 'admitted': e['adm'], 'observed': r}
         final = [pal.enc_file(world.get(i), KEY2, written) for i in range(1, t['npaths'] + 1)]
         out['disk_agree'] = 1 if final == t['disk'] else 0
+        out['rec'] = {'init': [{'there': 0 if u == [['!', 0]] else 1, 'cfg': [x for x in u if x[0] not in ('{', '}', '!')]} for u in t['init']],
+                      'events': rec}
     finally:
         for p, pr in procs.items():
             if pr.alive:
@@ -189,7 +212,7 @@ def s2c_store(ctx, emitted, label, npaths, blocked, sample=None):
         leaves = picked
     _TASKS = [{'init': e['init'], 'hist': e['hist'], 'disk': e['disk'], 'npaths': npaths, 'blocked': list(blocked),
                'unblocked': npaths - len(blocked)} for e in leaves]
-    res = _pmap(_replay_store, list(range(len(_TASKS))))
+    res = _pmap(_replay_store, list(enumerate(_TASKS)))
     faults = {}
     for i, r in enumerate(res):
         ctx.evals += r['reads']
@@ -207,8 +230,13 @@ def s2c_store(ctx, emitted, label, npaths, blocked, sample=None):
         'reads_compared': sum(r['reads'] for r in res), 'reads_by_fault_class': faults,
         'reads_where_code_equals_mechanism_model': sum(r['mech_reads_agree'] for r in res),
         'final_disk_equals_mechanism_model': sum(r['disk_agree'] for r in res),
-        'steps_out_of_step_with_model': sum(r['desync'] for r in res)}
+        'steps_out_of_step_with_model': sum(r['desync'] for r in res),
+        'reads_left_to_the_trace_specification': sum(r['left_to_trace'] for r in res)}
+    group = {'one-file': '1', 'two-files': '2', 'two-files-first-blocked': '2b'}[label]
+    recs = [{'id': 0, 'init': r['rec']['init'], 'events': r['rec']['events'],
+             'feats': {'group': group, 'palette': 'int', 'died': 0, 'died_torn': 0, 'bad': 0, 'real_interpreter': 0, 's2c': label}} for r in res]
     _TASKS = []
+    return recs
 
 
 # ---- C2S: random histories, real deaths at arbitrary points of the unwrapped code ------------------------
@@ -258,22 +286,43 @@ def _store_history(args):
     written = [x['cfg'] for x in init]
     events, procs = [], {}
     feats = {'group': group, 'palette': pal.kind, 'died': 0, 'died_torn': 0, 'bad': 0, 'real_interpreter': 0}
-    last_write = ['none']
 
     def files():
         return [pal.enc_file(world.get(i), KEY4, written) for i in range(1, npaths + 1)]
 
+    cause = {}                       # file -> what tore it ('crash' / 'bad_value'), for the files that are torn now
+
+    def torn_kinds():
+        out = {}
+        for i, u in enumerate(files(), 1):
+            if not (u == [['!', 0]] or (u and u[-1][0] == '}')):
+                out[i] = 'truncated' if u == [] else 'partial'
+        return out
+
+    def after_write(kind):
+        """which files did this write leave torn (kind: 'died' / 'bad_value' / 'none')"""
+        now = torn_kinds()
+        for i in list(cause):
+            if i not in now:
+                del cause[i]
+        for i in now:
+            cause.setdefault(i, kind)
+
+    inflight = [0]
+
     def fault_now():
-        kinds = []
-        for u in files():
-            if u == [['!', 0]] or (u and u[-1][0] == '}'):
-                continue
-            kinds.append('truncated' if u == [] else 'partial')
-        if not kinds or last_write[0] == 'none':
+        now = torn_kinds()
+        if not now:
             return 'none'
-        if last_write[0] == 'bad_value':
+        target = min(i for i in range(1, npaths + 1) if i not in blocked)
+        if inflight[0] and target in now:
+            return 'between_' + now[target]
+        if any(cause.get(i) == 'died' for i in now):
+            i = [i for i in now if cause.get(i) == 'died'][0]
+            return 'crash_' + now[i]
+        if any(cause.get(i) == 'bad_value' for i in now):
             return 'bad_value'
-        return 'crash_' + ('truncated' if 'truncated' in kinds else 'partial')
+        return 'none'
 
     def spawn():
         p = len(procs) + 1
@@ -294,11 +343,11 @@ def _store_history(args):
         if rng.random() < 0.6:
             read(1)
         for step in range(rng.randint(3, 7)):
-            if len(procs) >= 5:
+            if len(procs) >= 4:
                 break
             if not live():
                 spawn()
-            what = rng.choices(['read', 'write', 'die', 'spawn', 'bad'], [3, 3, 4, 1, 1])[0]
+            what = rng.choices(['read', 'write', 'die', 'spawn', 'bad', 'pause'], [3, 3, 4, 1, 1, 3])[0]
             if what == 'read':
                 read(rng.choice(live()))
             elif what == 'spawn':
@@ -310,10 +359,47 @@ def _store_history(args):
                 r = procs[p].call({'op': 'write', 'cfg': c})
                 events.append({'op': 'write', 'p': p, 'cfg': c, 'done': r['done'], 'files': files(),
                                'arg_same': 1 if r.get('arg_after') == r.get('arg_before') else 0})
-                last_write[0] = 'bad_value' if any(v == 0 for _, v in c) else 'none'
-                feats['bad'] += 1 if last_write[0] == 'bad_value' else 0
+                isbad = any(v == 0 for _, v in c)
+                after_write('bad_value' if isbad else 'none')
+                feats['bad'] += 1 if isbad else 0
                 if rng.random() < 0.7:
                     read(p)
+            elif what == 'pause':
+                # a write is stopped (SIGSTOP) at an arbitrary event; another process reads meanwhile; then the writer
+                # goes on to the end - or is killed where it stands
+                p = rng.choice(live())
+                c = rand_cfg()
+                written.append(c)
+                pr = Proc(probe.env, pal, KEY4)
+                total = pr.call({'op': 'write', 'cfg': c, 'die_at': 0, 'count_only': True})['events']
+                pr.stop()
+                n = rng.randrange(0, max(1, total - 3))
+                procs[p].send({'op': 'write', 'cfg': c, 'pause_at': n})
+                how, r = procs[p].paused_or_reply()
+                if how == 'reply':                            # ended before that event: an ordinary completed write
+                    events.append({'op': 'write', 'p': p, 'cfg': c, 'done': r['done'], 'files': files(), 'arg_same': 1})
+                    after_write('none')
+                    continue
+                events.append({'op': 'begin', 'p': p, 'cfg': c, 'pause_at': n, 'of': total, 'files': files()})
+                inflight[0] = 1
+                feats['paused'] = feats.get('paused', 0) + 1
+                others = [x for x in live() if x != p]
+                if not others or rng.random() < 0.5:
+                    others.append(spawn())
+                for x in others:
+                    read(x)
+                if rng.random() < 0.75:
+                    procs[p].resume()
+                    r = procs[p].recv()
+                    done = r['done']
+                else:
+                    procs[p].kill(); done = 0
+                inflight[0] = 0
+                events.append({'op': 'end', 'p': p, 'cfg': c, 'done': done, 'files': files()})
+                after_write('none' if done else 'died')
+                for x in live():
+                    if rng.random() < 0.6:
+                        read(x)
             else:
                 p = rng.choice(live())
                 c = rand_cfg()
@@ -328,13 +414,14 @@ def _store_history(args):
                 except Died:
                     procs[p].reap(); done = 0
                 events.append({'op': 'write', 'p': p, 'cfg': c, 'done': done, 'die_at': n, 'of': total, 'files': files(), 'arg_same': 1})
-                last_write[0] = 'none' if done else 'died'
+                after_write('none' if done else 'died')
                 if not done:
                     feats['died'] += 1
                     feats['died_torn'] += 1 if fault_now() != 'none' else 0
                     if real:                                  # the next process is a brand-new interpreter
                         q = len(procs) + 1
                         procs[q] = Proc(world.env, pal, KEY4)   # (a placeholder that keeps the numbering; it does nothing)
+                        procs[q].kill()
                         events.append({'op': 'spawn', 'p': q})
                         r = _real_interpreter_read(world.env, pal, KEY4)
                         events.append({'op': 'read', 'p': q, 'ok': r['ok'], 'cfg': r['cfg'], 'cls': r.get('cls', ''),
@@ -354,8 +441,9 @@ def _store_history(args):
     return {'id': hid, 'init': init, 'events': events, 'feats': feats}
 
 
-def c2s_store_record(ctx, n, nreal):
-    """run the random histories; returns them with the logs the trace specification will be given"""
+def c2s_store_record(ctx, n, nreal, replayed=()):
+    """run the random histories; returns them - together with what really happened in the S2C replays (`replayed`) - with
+    the logs the trace specification will be given"""
     plan = []
     for i in range(n):
         group = ('1', '1', '2', '2b')[i % 4]
@@ -364,6 +452,9 @@ def c2s_store_record(ctx, n, nreal):
     if os.environ.get('VERIF_X04_CORRUPT') == 'store':         # binding self-check: falsify one recorded read
         e = [e for e in hs[1]['events'] if e['op'] == 'read' and e['ok'] == 1][-1]
         e['cfg'] = [[k, v % 5 + 1] for k, v in e['cfg']] or [['a', 1]]
+    for k, h in enumerate(replayed):
+        h['id'] = 100000 + k
+    hs = hs + list(replayed)
     logs = []
     for group in GROUPS:
         sub = [h for h in hs if h['feats']['group'] == group]
@@ -381,13 +472,23 @@ def c2s_store_judge(ctx, hs, logs):
         ctx.evals += sum(len(o['events']) for o in obs)
         bad = ctx.validate('Trace_CfgStore', obs, cfg='Trace_CfgStore_%s.cfg' % group, expect_states=want)
         ctx.traces += len({b for b, _ in bad}) - len({b // 1000 for b, _ in bad})      # count histories, not lines
+        rejected = {(code // 1000, code % 1000) for code, _ in bad}
+        for hi, h in enumerate(sub, 1):
+            # the replayed S2C histories were judged read by read against the sets TLC printed, too: both routes must agree
+            for k, e in enumerate(h['events'], 1):
+                v = e.get('s2c_verdict')
+                if v in ('ok', 'bad') and (v == 'bad') != ((hi, k) in rejected):
+                    raise Machinery('S2C (admitted sets) and the trace specification disagree on history %s event %d: %s' % (h['id'], k, json.dumps(h['events'][:k])[:1500]))
         for code, clause in bad:
             h = sub[code // 1000 - 1]; k = code % 1000
             e = h['events'][k - 1]
-            found.append((clause, {'engine': 'c2s', 'op': 'read', 'area': 'store', 'fault': e['fault'], 'group': group, 'palette': h['feats']['palette'],
+            if e.get('s2c_verdict') == 'bad':
+                continue                              # reported by the S2C comparison already
+            found.append((clause, {'engine': 'c2s' if 's2c' not in h['feats'] else 's2c-trace', 'op': 'read', 'area': 'store', 'fault': e['fault'], 'group': group, 'palette': h['feats']['palette'],
                                    'real_interpreter': e.get('real_interpreter', 0), 'history': h['id'], 'event': k,
                                    'init': h['init'], 'hist': [{a: b for a, b in x.items() if a != 'files'} for x in h['events'][:k]]},
-                          {'observed': {a: e[a] for a in ('ok', 'cfg', 'cls')}, 'files_at_the_read': e['files']}))
+                          {'observed': {a: e.get(a) for a in ('ok', 'cfg', 'cls')}, 'files_at_the_read': e.get('files')}))
+    hs = [h for h in hs if 's2c' not in h['feats']]           # the statistics below are about the random histories only
     for h in hs:
         for k, e in enumerate(h['events']):
             if e['op'] == 'write' and not e['arg_same']:
@@ -411,6 +512,7 @@ def c2s_store_judge(ctx, hs, logs):
         'processes_killed_inside_a_write': len(died),
         'of_which_left_a_torn_file': sum(h['feats']['died_torn'] for h in hs),
         'writes_of_unserialisable_values': sum(h['feats']['bad'] for h in hs),
+        'writes_paused_at_an_arbitrary_point_while_others_read': sum(h['feats'].get('paused', 0) for h in hs),
         'reads_by_a_brand_new_interpreter': sum(h['feats']['real_interpreter'] for h in hs),
         'large_values_palette': sum(1 for h in hs if h['feats']['palette'] == 'blob'),
         'reads_by_fault_class': {f: sum(1 for h in hs for e in h['events'] if e['op'] == 'read' and e['fault'] == f)
@@ -462,8 +564,7 @@ def _canon_reg(o):
     return dict(o, keys=sorted(o['keys'])) if o.get('kind') == 'obj' else o
 
 
-def _replay_reg(ix):
-    hist = _TASKS[ix]
+def _replay_reg(hist):
     me = Local(None, Palette(), KEY4)
     rets, bad = [], []
     for k, e in enumerate(hist):
@@ -480,7 +581,7 @@ def _replay_reg(ix):
 def s2c_reg(ctx, emitted, label):
     global _TASKS
     _TASKS = [e['hist'] for e in _leaves(emitted)]
-    res = _pmap(_replay_reg, list(range(len(_TASKS))))
+    res = _pmap(_replay_reg, _TASKS)
     for i, r in enumerate(res):
         ctx.evals += r['n']; ctx.traces += 1
         for clause, case, detail in r['bad']:
@@ -612,7 +713,7 @@ def s2c_nd(ctx, emitted):
     if len(tables) != 1:
         raise Machinery('the generator printed %d function tables' % len(tables))
     x_ndfuncs.install(tables[0])
-    cases = [e for e in emitted if 'decl' in e]
+    cases = sorted((e for e in emitted if 'decl' in e), key=lambda e: json.dumps([e['decl'], e['call']], sort_keys=True))
     stats = {'cases': len(cases), 'declaration_fails': 0, 'instances': 0, 'exceptions': 0, 'several_outcomes_admitted': 0}
     for k, case in enumerate(cases):
         ctx.evals += 1; ctx.traces += 1
@@ -860,6 +961,8 @@ def run(ctx):
 
     def mark(what):
         marks.append((what, round(time.time() - t0, 1)))
+    nw = int(os.environ.get('VERIF_PY_WORKERS', min(12, os.cpu_count() or 1)))
+    _POOL[0] = multiprocessing.get_context('fork').Pool(nw) if nw > 1 else None
     only = os.environ.get('VERIF_X04_ONLY')          # development aid: 'store' / 'reg' / 'nd' runs one area only
     if only:
         area = {'store': 'MC_CfgStore', 'reg': 'MC_CfgStoreReg', 'nd': 'MC_NamedDict'}[only]
@@ -876,19 +979,20 @@ def run(ctx):
                 pf.submit(m, c, coverage=kw.get('coverage', True))
             # --- S2C
             mark('start')
-            GEN[0] and s2c_store(ctx, ctx.generate(*GEN[0]), 'one-file', 1, (), sample=300 if q else None)
+            recs = []
+            GEN[0] and recs.extend(s2c_store(ctx, ctx.generate(*GEN[0]), 'one-file', 1, (), sample=300 if q else None))
             mark('s2c store one-file')
             GEN[1] and s2c_reg(ctx, ctx.generate(*GEN[1]), 'length<=3')
             mark('s2c registry')
             GEN[2] and s2c_nd(ctx, ctx.generate(*GEN[2]))
             mark('s2c named_dict')
-            GEN[3] and s2c_store(ctx, ctx.generate(*GEN[3]), 'two-files', 2, (), sample=100 if q else None)
-            GEN[4] and s2c_store(ctx, ctx.generate(*GEN[4]), 'two-files-first-blocked', 2, (1,), sample=60 if q else None)
+            GEN[3] and recs.extend(s2c_store(ctx, ctx.generate(*GEN[3]), 'two-files', 2, (), sample=100 if q else None))
+            GEN[4] and recs.extend(s2c_store(ctx, ctx.generate(*GEN[4]), 'two-files-first-blocked', 2, (1,), sample=60 if q else None))
             GEN[5] and s2c_reg(ctx, ctx.generate(*GEN[5]), 'narrow-menu-length<=%d' % (4 if q else 5))
             GEN[6] and s2c_nd_inst(ctx, ctx.generate(*GEN[6]), 'ops<=2' if q else 'ops<=3')
             # --- C2S: record everything, then let the trace specifications judge (their runs are started together, too)
             mark('s2c rest')
-            hs, logs = c2s_store_record(ctx, 64 if q else 1200, 2 if q else 12) if only in (None, 'store') else ([], [])
+            hs, logs = c2s_store_record(ctx, 64 if q else 1200, 2 if q else 12, recs) if only in (None, 'store') else ([], [])
             mark('c2s store recorded')
             regs = c2s_reg_record(ctx, 150 if q else 2000) if only in (None, 'reg') else []
             obs, hists = c2s_nd_record(ctx, 500 if q else 6000, 150 if q else 1500) if only in (None, 'nd') else ([], [])
@@ -912,6 +1016,8 @@ def run(ctx):
             ctx.extra['crash_points_at_which_the_mechanism_model_keeps_old_or_new'] = [
                 'before the open', 'the whole text on the disk but the file not yet closed', 'after the close']
     finally:
+        if _POOL[0] is not None:
+            _POOL[0].terminate(); _POOL[0].join(); _POOL[0] = None
         shutil.rmtree(_ROOT[0], ignore_errors=True)
     ctx.exhaustive = False
     ctx.assumptions += ASSUMPTIONS
